@@ -307,3 +307,14 @@ func stubFilepathGlob(pattern string) ([]string, error) {
 	sort.Strings(out)
 	return out, nil
 }
+
+// os.Stat on the model's named files: only existence is modelled (callers look at the error).
+//
+//verif:stub os.Stat
+func stubOsStat(name string) (os.FileInfo, error) {
+	vf := vByName[name]
+	if vf == nil || vf.removed {
+		return nil, &os.PathError{Op: "stat", Path: name, Err: os.ErrNotExist}
+	}
+	return nil, nil
+}
